@@ -1,0 +1,18 @@
+//go:build verif
+
+// Verification contracts (property C27, addition; comment-only, read by /verif/govc). No executable code.
+// forwardFetch, NOT_LEADER branch: the key under which a partition is recorded for the retry round is built from the
+// topic's NAME - the one in the broker's reply, or, when the reply carries only the topic id (fetch v13+), the name
+// the proxy resolves for that id. groupFetchPartitionsByBroker and the final fill-in look the retry set up by the
+// request's (already resolved) names; a key built from the bare id would never be found, the partition would be
+// neither retried nor reported.
+
+package main
+
+//@ func (p *proxy) forwardFetch
+//@   ghost gResolved bool = false
+//@   ghost gName string = ""
+//@   at resolveTopicID#1 before assert [C27.fetch_retry_resolves_the_reply_topic_id] arg1 == topic.TopicID
+//@   at resolveTopicID#1 after set gResolved = true
+//@   at resolveTopicID#1 after set gName = ret0
+//@   at fetchTopicKey#2 before assert [C27.fetch_retry_key_uses_the_resolved_topic_name] arg1 == topic.TopicID && (topic.Topic != "" ==> arg0 == topic.Topic) && (topic.Topic == "" ==> gResolved && arg0 == gName)
